@@ -149,7 +149,10 @@ async def next_step_settled(sim: SimRunner, world: World) -> bool:
         if sim.next_steps and sim.next_steps[0] == sim.progress.time:
             return True
         else:
-            await_time = sim.next_steps[0] if sim.next_steps else TieredTime(world.until) + sim.from_world_time
+            end_time = TieredTime(world.until) + sim.from_world_time
+            # A step may have been announced for a time after the end,
+            # which our progress will never reach.
+            await_time = min(sim.next_steps[0], end_time) if sim.next_steps else end_time
             _, pending = await asyncio.wait(
                 [
                     asyncio.create_task(sim.progress.has_reached(await_time)),
